@@ -211,6 +211,23 @@ Example ex_plan_row_last_refuted :
   snd (ex_restart (persist [ex_aged] (firstn 3 (writes_aged (age_out ex_stamp ex_aged))))) = [].
 Proof. vm_compute. split; reflexivity. Qed.
 
+(* R8: recovery that fails: Search fails (budget 0) / the 3rd write of the close of ex_aged fails *)
+Example ex_new_refused :
+  execute_new (Some 0%nat) ex_now ex_stamp ex_maxage true ex_store = Refused ex_store /\
+  execute_new (Some (1 + 4 + 2)%nat) ex_now ex_stamp ex_maxage true ex_store =
+    Refused (crash_during_close 2 ex_now ex_stamp ex_maxage ex_store) /\
+  execute_new None ex_now ex_stamp ex_maxage true ex_store =
+    Opened (fst (select ex_now ex_stamp ex_maxage true ex_store)) [40%N; 60%N].
+Proof. vm_compute. repeat split. Qed.
+
+(* R9 (candidate, not repaired): the search entry of the live Running plan 40 still says NotStarted (torn
+   first UpdatePlan): Vault.Recovery does not repair it and the plan is not resumed although it is durably
+   Running and live *)
+Example ex_torn_first_write_refuted :
+  snd (open_workstream_torn [40%N] ex_now ex_stamp ex_maxage ex_vault) = [60%N] /\
+  is_running ex_live /\ stale ex_now ex_maxage ex_live = false.
+Proof. vm_compute. repeat split. Qed.
+
 (* the executable twins used by the monitor *)
 Example ex_monitor_twins :
   is_staleb ex_now ex_maxage ex_aged = true /\ is_staleb ex_now ex_maxage ex_live = false /\
